@@ -470,27 +470,34 @@ def sfb2d(ps, ts):
     return [N(ll().sfb2d(T(l_), T(lh), T(hl), T(hh), filts, mode=LM(m, ps, ts)))]
 
 
+def _nonsep_filts(prep, form, c0, c1, r0, r1):
+    """every documented way of naming the four filters.  form: 0 prepared tensor (four arguments), 1 list of four filters;
+    when an axis pair is shared, the row filters may be LEFT TO DEFAULT: 2 tuple of two filters, 3 list with None rows,
+    4 prepared tensor from the two-argument call, 5 prepared tensor with the shared row filters given as None one at a time"""
+    s0, s1 = np.array_equal(c0, r0), np.array_equal(c1, r1)
+    if form == 1:
+        return [c0, c1, r0, r1]
+    if form == 2 and s0 and s1:
+        return (c0, c1)
+    if form == 3 and (s0 or s1):
+        return [c0, c1, None if s0 else r0, None if s1 else r1]
+    if form == 4 and s0 and s1:
+        return prep(c0, c1).to(torch.float64)
+    if form == 5 and (s0 or s1):
+        return prep(c0, c1, None if s0 else r0, None if s1 else r1).to(torch.float64)
+    return prep(c0, c1, r0, r1).to(torch.float64)
+
+
 def afb2d_nonsep(ps, ts):
-    """form: 0 prepared tensor, 1 list of four filters, 2 list of two filters (when both axes share them)"""
     m, form = ps
     hc0, hc1, hr0, hr1, x = ts
-    if form == 1:
-        return [N(ll().afb2d_nonsep(T(x), [hc0, hc1, hr0, hr1], mode=LM(m, ps, ts)))]
-    if form == 2 and np.array_equal(hc0, hr0) and np.array_equal(hc1, hr1):
-        return [N(ll().afb2d_nonsep(T(x), (hc0, hc1), mode=LM(m, ps, ts)))]
-    f = ll().prep_filt_afb2d_nonsep(hc0, hc1, hr0, hr1)
-    return [N(ll().afb2d_nonsep(T(x), f.to(torch.float64), mode=LM(m, ps, ts)))]
+    return [N(ll().afb2d_nonsep(T(x), _nonsep_filts(ll().prep_filt_afb2d_nonsep, form, hc0, hc1, hr0, hr1), mode=LM(m, ps, ts)))]
 
 
 def sfb2d_nonsep(ps, ts):
     m, form = ps
     gc0, gc1, gr0, gr1, co = ts
-    if form == 1:
-        return [N(ll().sfb2d_nonsep(T(co), [gc0, gc1, gr0, gr1], mode=LM(m, ps, ts)))]
-    if form == 2 and np.array_equal(gc0, gr0) and np.array_equal(gc1, gr1):
-        return [N(ll().sfb2d_nonsep(T(co), (gc0, gc1), mode=LM(m, ps, ts)))]
-    f = ll().prep_filt_sfb2d_nonsep(gc0, gc1, gr0, gr1)
-    return [N(ll().sfb2d_nonsep(T(co), f.to(torch.float64), mode=LM(m, ps, ts)))]
+    return [N(ll().sfb2d_nonsep(T(co), _nonsep_filts(ll().prep_filt_sfb2d_nonsep, form, gc0, gc1, gr0, gr1), mode=LM(m, ps, ts)))]
 
 
 IMPL = {k: v for k, v in list(globals().items()) if callable(v) and k[0] != '_' and k not in ('T', 'N', 'll', 'named', 'Mutated')}
